@@ -2,7 +2,7 @@ CONSTANTS
   Dev = {}
   AstOf <- MCAstOf
   FilesOf <- MCFilesOf
-  Tier = "dev"
+  Tier = "sens"
 SPECIFICATION MCSpec
 INVARIANTS Conforms NoCrash TypeOK
 PROPERTY Terminates
